@@ -9,6 +9,8 @@ COMMENT_POOL = [
     # near misses of the directive sentinels: the sentinel is not at the start of the comment
     "!!dir$ ivdep", "!!gcc$ unroll 4", "!cdir$ nodep", "! cost in misc$units", "! see !$omp below", "!!$omp parallel",
     "! c$omp x", "!*$x", "! !dir$ simd",
+    # characters that are line boundaries for str.splitlines() but not for a Fortran reader, and non-ASCII text
+    "! page\x0cbreak", "! sep \u2028 inside", "! caf\u00e9 \x85 nel", "! vt\x0bhere",
 ]
 DIRECTIVE_POOL = ["!$omp parallel do", "!$OMP END PARALLEL", "!dir$ ivdep", "!$acc loop", "!gcc$ unroll 4",
                   "!$omp barrier"]
@@ -398,7 +400,7 @@ FIX_COMMENT_POOL = ["C plain comment", "c lower comment", "* star comment", "! b
                     # column 1 makes these comments although they read like statements or words
                     "CALL BUMP(I)", "continue", "Common set-up for the loop", "Close the file here", "character of the data",
                     "complex part", "contains the main loop", "cycle counter", "case 1: nothing", "check this", "Cx", "c",
-                    "*** banner ***", "common /blk/ x", "character(len = 3) :: c"]
+                    "*** banner ***", "common /blk/ x", "character(len = 3) :: c", "C page\x0cbreak", "c \u00e9t\u00e9 \u2028 x"]
 
 
 class FixedOpts:
@@ -512,7 +514,7 @@ def fixed_layout(flat, rnd, opts):
                 room = 72 - len(cur) - len(gap)
                 crossing = (kind == "STR" and W == 72 and room >= 2 and len(txt) - room >= 1
                             and r.chance(opts.lit_cross))
-                if crossing and "no_blank_at_col72" in opts.excl and (gap + txt)[72 - len(cur) - 1] == " ":
+                if crossing and "no_blank_at_col72" in opts.excl and (gap + txt)[72 - len(cur) - 1].isspace():
                     lay.excluded["no_blank_at_col72"] = lay.excluded.get("no_blank_at_col72", 0) + 1
                     crossing = False
                 if crossing and not opts.allow_amp_end and (cur + (gap + txt)[:72 - len(cur)]).rstrip().endswith("&"):
@@ -527,7 +529,7 @@ def fixed_layout(flat, rnd, opts):
                     rest = whole[k:]
                     assert len(cur) == 72
                     lay.features.add("lit_cross_72")
-                    if whole[k - 1] == " ":
+                    if whole[k - 1].isspace():      # blank, form feed, U+2028 ...: whatever str.rstrip() removes
                         lay.features.add("blank_at_col72")
                     lines.append(cur)
                     nline += 1
